@@ -2,7 +2,8 @@
     Only statements here; proofs live in LV.Proofs.*.  Part 1: FeldmanHashSet<HP> at step grain (LV.Model.Feldman, tied to
     cds/intrusive/impl/feldman_hashset.h + details/feldman_hashset_base.h by step correspondence, checks/C14.py). *)
 From Coq Require Import ZArith NArith List String.
-From LV Require Import Base.Conc Base.Events Model.Feldman Proofs.FeldmanStepInv Proofs.FeldmanStepSafe Proofs.FeldmanStepThm.
+From LV Require Import Base.Conc Base.Events Base.Lin Spec.Specs Model.Feldman Proofs.FeldmanStepInv Proofs.FeldmanStepSafe Proofs.FeldmanStepThm.
+From LV Require Import Model.SplitList Proofs.SplitListInv Proofs.PartitionLin.
 Import ListNotations.
 
 (** [data_at g a i p]: item p sits in slot i of array node a, reachable from the head array (a slot in the "converting"
@@ -82,3 +83,112 @@ Proof.
   - split; [exact R|]. exists 0. split; [vm_compute; reflexivity|]. split; discriminate.
   - vm_compute. reflexivity.
 Qed.
+
+
+(** * Part 2: SplitListSet<HP, MichaelList> at step grain (LV.Model.SplitList, tied to cds/intrusive/split_list.h +
+      details/split_list_base.h by step correspondence with load factor 1, 2 initial buckets, growth and concurrent bucket
+      initialisation on almost every insert). *)
+
+(** PARTIAL [split_bucket_init_safe]: for every table capacity, hash table, client program and EVERY schedule, in every
+    reachable configuration a published bucket pointer is an allocated aux node that carries exactly that bucket's dummy
+    key, and the parent bucket of a published bucket is published (init_bucket initialises the parent first and publishes
+    only after it).  Missing for the full statement below: "that node is in the list, after its parent's dummy" — this
+    needs the sortedness/reachability invariant of the Michael list under the list operations (C13 proves it for
+    LV.Model.MichaelList, whose search is hard-wired to m_pHead; it has not been re-proved for searches that start at a
+    bucket's aux node). *)
+Theorem C14_split_bucket_init_safe_partial :
+  forall (cap : nat) (hs : list Z) (fuel : nat) (ths : list (list (list Z))) c,
+    Conc.reach (SplitList.init_cfg cap hs fuel ths) c ->
+    forall b, table (Conc.shared c) b <> 0 ->
+      nkey (heap (Conc.shared c) (table (Conc.shared c) b)) = dkey b /\
+      table (Conc.shared c) b <= nalloc (Conc.shared c) /\
+      (b <> 0 -> table (Conc.shared c) (parent_bucket b) <> 0).
+Proof. exact split_table_reach. Qed.
+Print Assumptions C14_split_bucket_init_safe_partial.
+
+(** nodes reachable from node [n] by following m_pNext *)
+Inductive list_reach (g : SplitList.G) : nat -> nat -> Prop :=
+| lr_refl n : list_reach g n n
+| lr_step n m : n <> 0 -> list_reach g (nnext (heap g n)) m -> list_reach g n m.
+
+(** full statements (NOT proved) *)
+Definition split_bucket_init_safe_statement : Prop :=
+  forall cap hs fuel ths c, Conc.reach (SplitList.init_cfg cap hs fuel ths) c ->
+    forall b, table (Conc.shared c) b <> 0 ->
+      nkey (heap (Conc.shared c) (table (Conc.shared c) b)) = dkey b /\
+      list_reach (Conc.shared c) 1 (table (Conc.shared c) b) /\
+      (b <> 0 -> list_reach (Conc.shared c) (table (Conc.shared c) (parent_bucket b)) (table (Conc.shared c) b)).
+
+(** changing m_nBucketCountLog2 never makes a present key unreachable from the bucket its hash now selects: an unmarked
+    item node reachable from the list head is reachable from the aux node of [bucket_no h log2] whenever that bucket is
+    published (uses the split-order theorem of C27: every regular key of a bucket sorts after the bucket's dummy) *)
+Definition split_growth_preserves_lookup_statement : Prop :=
+  forall cap hs fuel ths c, Conc.reach (SplitList.init_cfg cap hs fuel ths) c ->
+    forall k n, list_reach (Conc.shared c) 1 n -> n <> 0 -> nmark (heap (Conc.shared c) n) = false ->
+      nkey (heap (Conc.shared c) n) = okey (SplitList.hash hs k) k ->
+      forall b, b = bucket_no (SplitList.hash hs k) (log2 (Conc.shared c)) -> table (Conc.shared c) b <> 0 ->
+        list_reach (Conc.shared c) (table (Conc.shared c) b) n.
+
+Definition split_nodup_statement : Prop :=
+  forall cap hs fuel ths c, Conc.reach (SplitList.init_cfg cap hs fuel ths) c ->
+    forall n m, list_reach (Conc.shared c) 1 n -> list_reach (Conc.shared c) 1 m -> n <> 0 -> m <> 0 ->
+      nkey (heap (Conc.shared c) n) = nkey (heap (Conc.shared c) m) -> n = m.
+
+(** non-vacuity: a concrete 3-thread run in which the table grows from 2 to 4 buckets and buckets 1 and 3 get initialised
+    (bucket 3 after its parent 1), all inserts succeed *)
+Example C14_split_nonvacuous :
+  let c := fst (Conc.run 20000 0 [0;1;2;1;0;2;2;1]%nat
+                 (SplitList.init_cfg 32 [0;1;2;3;4;5]%Z 80 [[[1;1];[1;3]]; [[1;0];[1;2]]; [[1;3];[13;1]]]%Z)) in
+  log2 (Conc.shared c) = 2 /\ table (Conc.shared c) 1 <> 0 /\ table (Conc.shared c) 3 <> 0 /\
+  nkey (heap (Conc.shared c) (table (Conc.shared c) 3)) = dkey 3 /\ count (Conc.shared c) = 4%Z.
+Proof. vm_compute. repeat split; discriminate. Qed.
+
+(** * Part 3: composition over a partition of the keys (MichaelHashSet = array of ordered lists selected by hash & mask) *)
+
+(** Pure fact about LP-annotated histories of the sequential set (LV.Base.Lin): if the trace is sequential per thread
+    ([shape_ok]) and, for EVERY bucket b, the sub-trace of the operations whose key lies in bucket b is valid, then the whole
+    trace is valid, hence its history is linearizable.  [bucket] is an arbitrary function of the key. *)
+Theorem C14_partition_linearizable_lp :
+  forall (bucket : Z -> nat) (tr : list (aev SetSpec)),
+    shape_ok (fun _ => TIdle) tr ->
+    (forall b, lp_valid SetSpec (proj bucket b (fun _ => None) tr)) ->
+    lp_valid SetSpec tr /\ linearizable SetSpec (erase tr).
+Proof.
+  intros bucket tr H1 H2. split; [apply partition_lp_valid with (bucket := bucket)|apply partition_linearizable_lp with (bucket := bucket)]; assumption.
+Qed.
+Print Assumptions C14_partition_linearizable_lp.
+
+Example C14_partition_nonvacuous :
+  let tr : list (aev SetSpec) :=
+    [@AInv SetSpec 0 (SInsert 1); @AInv SetSpec 1 (SInsert 2); @ALin SetSpec 1; @ALin SetSpec 0; @ARes SetSpec 0 (RBool true);
+     @AInv SetSpec 0 (SContains 2); @ARes SetSpec 1 (RBool true); @ALin SetSpec 0; @ARes SetSpec 0 (RBool true)]%Z in
+  shape_ok (fun _ => TIdle) tr /\
+  (forall b, lp_valid SetSpec (proj (fun k => Z.to_nat (Z.land k 1)) b (fun _ => None) tr)) /\
+  List.length (proj (fun k => Z.to_nat (Z.land k 1)) 0 (fun _ => None) tr) = 6 /\
+  List.length (proj (fun k => Z.to_nat (Z.land k 1)) 1 (fun _ => None) tr) = 3.
+Proof.
+  cbv zeta. split; [cbn; repeat split; auto; discriminate|]. split; [|split; reflexivity].
+  intros [|[|b]]; unfold lp_valid; vm_compute; eexists; reflexivity.
+Qed.
+
+(** history-level locality (Herlihy-Wing) and the composed statement for MichaelHashSet: NOT proved.  What is proved is
+    the LP-level composition above, which is the form in which C13 delivers its result ([lp_valid] traces of the list
+    model); what is missing is (a) a MichaelHashSet model whose trace projects bucket-wise onto MichaelList traces and
+    (b) C13's read-side linearization points (C13 proves the updates only). *)
+Fixpoint hproj (bucket : Z -> nat) (b : nat) (cur : nat -> option nat) (h : history SetSpec) : history SetSpec :=
+  match h with
+  | [] => []
+  | HInv t o :: r =>
+      let r' := hproj bucket b (upd_cur cur t (op_bucket bucket o)) r in
+      if in_b b (op_bucket bucket o) then HInv t o :: r' else r'
+  | HRes t x :: r =>
+      let r' := hproj bucket b (upd_cur cur t None) r in
+      if in_b b (cur t) then HRes t x :: r' else r'
+  end.
+
+Definition partition_linearizable_statement : Prop :=
+  forall (bucket : Z -> nat) (h : history SetSpec),
+    (forall t o, In (HInv t o) h -> op_key o <> None) ->
+    wf_history h ->
+    (forall b, linearizable SetSpec (hproj bucket b (fun _ => None) h)) ->
+    linearizable SetSpec h.
